@@ -433,6 +433,11 @@ def gen_stop(rng):
         # no quiescence claim while a coroutine payload keeps stalling its own loop with blocking calls
         h += [["sleep", SETTLE]] + ([] if stalls else [["mark", "settled"]])
     if trigger == "shutdown":
+        if rng.random() < 0.4:
+            # several threads ask for the shutdown within a few milliseconds of each other: each call returns
+            h.append(["set", "stopnow"])
+            for _ in range(rng.choice([2, 3, 5])):
+                b.helpers.append([["wait", "stopnow"], ["sleep", rng.choice([0.0, 0.005, 0.02, 0.04, 0.08])], ["shutdown", 0]])
         h.append(["shutdown", 0])
     elif trigger == "sigint":
         h.append(["sigint"])
@@ -945,7 +950,7 @@ MIX = {
     "C03": [("adopt", 0.66), ("stop", 0.07), ("fail", 0.06), ("churn", 0.08), ("storm", 0.06), ("lifecycle", 0.07)],
     "C10": [("exec", 0.9), ("overlap", 0.1)],
     "C11": [("overlap", 0.6), ("exec", 0.25), ("lifecycle", 0.15)],
-    "C12": [("lifecycle", 0.55), ("stop", 0.2), ("churn", 0.25)],
+    "C12": [("lifecycle", 0.45), ("stop", 0.35), ("churn", 0.2)],
 }
 N_QUICK = {"C01": 128, "C02": 96, "C03": 80, "C10": 72, "C11": 48, "C12": 56}
 N_THOROUGH = {"C01": 900, "C02": 900, "C03": 700, "C10": 600, "C11": 400, "C12": 400}
@@ -1097,14 +1102,20 @@ class View:
                 own[("p", e[3])] = e[2]
             elif e[0] == "ExecCall":
                 own[("p", e[3])] = e[2]
-        cur = None
+        # a service belongs to the runner whose (admitted) accept call is in progress when its run starts
+        live = None
         for (_i, _t, _tid, e) in self.ev:
-            if e[0] == "AcceptCall":
+            if e[0] == "AcceptCall" and live is None:
+                live = e[2]
+            elif e[0] == "AcceptEnd":
+                if e[3] != ["exclusive"] and e[2] == live:
+                    live = None
+            elif e[0] == "AcceptCall":
+                # a concurrent call: rejected as exclusive on a correct runtime (its AcceptEnd says so); the runner
+                # already accepting stays the owner
                 pass
-            if e[0] == "RunningSet":
-                cur = e[1]
             if e[0] == "Start" and e[1] == "s":
-                own.setdefault(("s", e[2]), cur if cur is not None else 0)
+                own.setdefault(("s", e[2]), live if live is not None else 0)
         return own
 
 
